@@ -1098,6 +1098,18 @@ def c11_r4(ctx):
                             break
             if callers and n_ok == len(callers):
                 ok = True
+        # a temporary left behind by a killed run is overwritten, not respected: no test of its
+        # presence decides whether the state gets written
+        tests = [(f, t, c.args[1], c.bb) for t in sys_calls(f, "is_file") + sys_calls(f, "is_dir")]
+        for cs in [cs for cs in ctx.P.callers.get(f.id, []) if not cs.fn.body.get("in_test")]:
+            po = [a for a in cs.args if ty_is_path(cs.fn, a)]
+            if po:
+                tests += [(cs.fn, t, po[0], cs.bb) for t in sys_calls(cs.fn, "is_file") + sys_calls(cs.fn, "is_dir")]
+        for (g, t, pathop, wbb) in tests:
+            tcls = classify_path_operand(ctx.P, g, t.args[1])
+            gates = any(wbb not in g.reach([x for (_, x) in g.bool_edges_of_call(t, v)]) for v in (True, False) if g.bool_edges_of_call(t, v))
+            if gates and g.origins_of_operand(t.args[1]) == g.origins_of_operand(pathop) and tcls and all(x.endswith("~") for x in tcls):
+                ctx.viol((g.id, "stale-temporary-honoured"), "the presence of the temporary file decides whether the state is written: a temporary left by a killed run is never cleared, so every later write of this state fails (the build aborts until someone deletes the file)", t.where)
         if ok:
             ctx.ok()
         else:
